@@ -3,6 +3,7 @@ package checks
 import (
 	"fmt"
 	"os"
+	"strings"
 	"sync"
 	"time"
 
@@ -104,6 +105,13 @@ func exploreAll(ctx *vc.Ctx, rep *vc.Report, idx *int64, name string, mk func() 
 	rep.Nontrivial += st.Executions
 	rep.Count("unbounded_state_cache_hits", st.Pruned)
 	if st.Nondet != "" {
+		if strings.Contains(st.Nondet, "the key is too coarse") {
+			// the cache merged two different states in this scenario: its cached pass proves nothing and is discarded
+			// (reported, not an alarm: the bounded search does not use the cache)
+			rep.Count("unbounded_scenarios_discarded_key_collision", 1)
+			rep.Notes = append(rep.Notes, "cached search discarded: "+st.Nondet)
+			return
+		}
 		rep.Nondet = st.Nondet
 		return
 	}
